@@ -171,6 +171,8 @@ def obligations(tier):
         obs.append(dict(name=f"roundtrip 2 notes /{ds}", func="ob_roundtrip", args=(ds, 2, 1, (2 if max(ds) >= 48 else 4) if tier == "quick" else (4 if max(ds) >= 48 else 8), False), budget_s=b,
                         bounds=f"two notes, denominators {ds}, beats in [0,{4 if tier == 'quick' else 8}), sorted unique positions"))
     obs.append(dict(name="roundtrip 2 notes /(1,2) 2 players", func="ob_roundtrip", args=((1, 2), 2, 2, 4, True), budget_s=b, bounds="two notes, players 0..1 symbolic"))
+    obs.append(dict(name="roundtrip 2 notes /(1,2) 3 players", func="ob_roundtrip", args=((1, 2), 2, 3, 4, True), budget_s=b, bounds="two notes, players 0..2 symbolic (a player absent between two present ones)"))
+    obs.append(dict(name="roundtrip 2 notes /(3,4) 3 players", func="ob_roundtrip", args=((3, 4), 1, 3, 4 if tier != "quick" else 2, False), budget_s=b, bounds="two notes, players 0..2 symbolic, denominators 3 and 4"))
     if tier != "quick":
         for ds in [(1, 2, 3), (4, 4, 3), (2, 4, 8)]:
             obs.append(dict(name=f"roundtrip 3 notes /{ds}", func="ob_roundtrip", args=(ds, 2, 1, 4, False), budget_s=b, bounds=f"three notes, denominators {ds}, beats in [0,4)"))
